@@ -46,6 +46,9 @@ def stmt(r, d, labels):
     if k < 0.40:
         l = r.choice(labels)
         return '%s: %s' % (l, stmt(r, d - 1, labels))
+    if k < 0.405:
+        return r.choice(['static const char *fn_%d = __func__;' % r.randrange(99), 'static const char *fq_%d = __func__ + 1;' % r.randrange(99), '{ static struct { const char *n; int k; } t_%d[] = { { __func__, 1 }, { &__func__[0], 2 } }; }' % r.randrange(99),
+                         'gs = (char *)__func__;', 'gi = sizeof __func__;', 'static const char *fr_%d = (1 ? __func__ : 0);' % r.randrange(99)])
     if k < 0.42:
         # declarations with linkage in inner scopes, hiding locals / parameters / globals of the same name (6.2.2p4)
         n = r.choice(['v%d' % r.randrange(4), 'a', 'gi', 'f0', 'gS', 's'])
